@@ -66,7 +66,7 @@ def interop_b(args):
                     bad.append((alg, enc, ser, spi, "machinery:" + repr(e)[:100], "")); continue
                 kw = {"sender_key": J.jkey(J.pub(sj))} if sj else {}
                 try:
-                    o = jwe.decrypt_compact(tok, J.jkey(rj), registry=reg, **kw) if ser == "compact" else jwe.decrypt_json(tok, J.jkey(rj), registry=reg, **kw)
+                    o = jwe.decrypt_compact(J.F(tok), J.jkey(rj), registry=reg, **kw) if ser == "compact" else jwe.decrypt_json(tok, J.jkey(rj), registry=reg, **kw)
                     if o.plaintext != pt:
                         bad.append((alg, enc, ser, spi, "plaintext-differs", ""))
                     elif any(o.protected.get(k) != v for k, v in p2.items()):
@@ -93,7 +93,7 @@ def rfc_vectors(ctx: Ctx) -> int:
             n += 1
             tok = t[form]
             try:
-                o = jwe.decrypt_compact(tok, J.fresh_jkey(keyj), registry=reg) if form == "compact" else jwe.decrypt_json(tok, J.fresh_jkey(keyj), registry=reg)
+                o = jwe.decrypt_compact(J.F(tok), J.fresh_jkey(keyj), registry=reg) if form == "compact" else jwe.decrypt_json(tok, J.fresh_jkey(keyj), registry=reg)
                 if o.plaintext != payload:
                     ctx.violation(f"jwewire:rfc7520 {t['name']} {form} plaintext differs", {"vector": t["name"]})
             except Exception as e:  # noqa
